@@ -322,7 +322,7 @@ pub fn child_main(args: &[String]) -> i32 {
         (2024, 3, 10), (2024, 3, 31), (2024, 4, 7), (2024, 10, 6), (2024, 10, 27), (2024, 11, 3), (2024, 4, 26), (2024, 9, 8),
     ];
     let dates_ref = &dates;
-    let grid_per_date: u64 = if thorough { 600 } else { 60 };
+    let grid_per_date: u64 = if thorough { 800 } else { 200 };
     run_cases(&mut rep, "grid", dates.len() as u64 * grid_per_date, |rep, rng, idx| {
         let (y, m, d) = dates_ref[(idx / grid_per_date) as usize];
         // an instant within +-2 s of an hour boundary of that (UTC) day, or of midnight
@@ -357,7 +357,7 @@ pub fn child_main(args: &[String]) -> i32 {
     });
 
     // (3) random instants
-    run_cases(&mut rep, "random", if thorough { 400_000 } else { 12_000 }, |rep, rng, _| {
+    run_cases(&mut rep, "random", if thorough { 600_000 } else { 60_000 }, |rep, rng, _| {
         let ts = days_from_civil(1990, 1, 1) * 86400 + rng.range(0, 60 * 366 * 86400);
         let unit = *rng.pick(&UNITS[..]);
         let n = if rng.chance(1, 5) { rng.range(1, 400) } else { *rng.pick(&NS[..]) };
@@ -389,7 +389,7 @@ pub fn child_main(args: &[String]) -> i32 {
     }
 
     // (5) histories on the driven clock
-    run_cases(&mut rep, "history", if thorough { 1500 } else { 60 }, |rep, rng, idx| history(rep, rng, zone_ref, table_ref, idx));
+    run_cases(&mut rep, "history", if thorough { 2500 } else { 250 }, |rep, rng, idx| history(rep, rng, zone_ref, table_ref, idx));
 
     let viol: Vec<Value> = rep.violations.iter().map(|v| json!({"signature": v.signature, "detail": v.detail})).collect();
     println!("RESULT {}", json!({
